@@ -223,6 +223,25 @@ def _all() -> list[tuple[str, tuple, dict]]:
         [before("t0", "t1", 1)]))
     b = B()
     add("explicit_readydep_conflict_rel", ["C11"], b.design([[b.trans("t0"), b.trans("t1")]], [before("t0", "t1", 1), conflict("t1", "t0", "R")]))
+    # ---- zero-argument methods guarded by validate_arguments (C03-5): exclusive / nonexclusive, direct /
+    #      conditional / through another method
+    for nx in (0, 1):
+        b = B(); b.decl("g"); b.decl("h")
+        add(f"zero_width_validate_{'nonexclusive' if nx else 'exclusive'}", ["C03", "C07"], b.design([[
+            b.meth("g", ready=False, nx=nx, val=["sig" if nx else "nsig", b.i(1, "g")]), b.meth("h", [b.call("g")], ready=False),
+            b.trans("t0", [b.call("g")]), b.trans("t1", [b.If([b.call("g")])]), b.trans("t2", [b.call("h", en=True)])]]))
+    # ---- stacked relation declarations on one ordered pair (C03-6)
+    b = B(); b.decl("a"); b.decl("bb")
+    add("stacked_before_plain_then_rd", ["C03", "C04", "C08"], b.design([[b.meth("a"), b.meth("bb"), b.trans("q"), b.trans("t"),
+        b.trans("ta", [b.call("a")]), b.trans("tb", [b.call("bb")])]],
+        [before("q", "t", 0), before("q", "t", 1), before("a", "bb", 0), before("a", "bb", 1)]))
+    b = B(); b.decl("a"); b.decl("bb")
+    add("stacked_before_rd_then_plain", ["C03", "C04", "C08"], b.design([[b.meth("a"), b.meth("bb"), b.trans("q"), b.trans("t"),
+        b.trans("ta", [b.call("a")]), b.trans("tb", [b.call("bb")])]],
+        [before("q", "t", 1), before("q", "t", 0), before("a", "bb", 1), before("a", "bb", 0)]))
+    b = B()
+    add("stacked_before_and_conflict", ["C02", "C07", "C08", "C03"], b.design([[b.trans("t0"), b.trans("t1"), b.trans("t2"), b.trans("t3")]],
+        [before("t0", "t1", 0), conflict("t0", "t1", "L"), conflict("t2", "t3", "U"), before("t2", "t3", 0), conflict("t2", "t3", "L")]))
     return out
 
 
